@@ -1,1 +1,23 @@
-fn main() {}
+//! Conformance harness for zbus_xml (C34): introspection documents through Node::from_reader /
+//! Node::to_writer / TryFrom<&str>.  Abstract document model: see spec/XmlDoc.tla (strings are UTF-8 byte arrays).
+//! Usage: xml xml-obs <cases.ndjson> <out.ndjson> | xml xml-rand <n> <seed> <out.ndjson>
+mod doc;
+mod util;
+
+fn main() {
+    std::panic::set_hook(Box::new(|_| {}));
+    let args: Vec<String> = std::env::args().collect();
+    if args.len() < 2 {
+        eprintln!("usage: xml <command> [args...]");
+        std::process::exit(2);
+    }
+    let rest = &args[2..];
+    match args[1].as_str() {
+        "xml-obs" => doc::cmd_xml_obs(rest),
+        "xml-rand" => doc::cmd_xml_rand(rest),
+        other => {
+            eprintln!("unknown command {other}");
+            std::process::exit(2);
+        }
+    }
+}
